@@ -123,6 +123,10 @@ def _check_headers(obj, plan, f, tag):
 
 def run_case(case) -> dict:
     plan = case["plan"]
+    if "enc" not in plan or "zip" not in plan:
+        # a reduced witness may have lost members that only the messages use
+        plan = {"enc": (plan.get("protected") or {}).get("enc"), "zip": (plan.get("protected") or {}).get("zip"), **plan}
+        case = dict(case, plan=plan)
     if case.get("custom_header") and not case.get("kind"):
         plan = dict(plan, custom_header=case["custom_header"], protected={**plan["protected"], case["custom_header"]: "caller value"})
         case = dict(case, plan=plan)
